@@ -1,0 +1,38 @@
+//go:build verif
+
+package vgirpc
+
+import (
+	"io"
+
+	"github.com/apache/arrow-go/v18/arrow"
+)
+
+// Verification hooks (build tag "verif") for the error-envelope property (C05):
+// thin exported wrappers around the unexported envelope builders. Add-only;
+// nothing here is compiled into normal builds.
+
+// VerifC05BuildErrorExtra returns the vgi_rpc.log_extra JSON for err.
+func VerifC05BuildErrorExtra(err error, debug bool) string {
+	return buildErrorExtra(err, debug)
+}
+
+// VerifC05WriteErrorResponse writes a complete IPC stream holding one
+// EXCEPTION batch for err, with the given debug setting (the exported
+// WriteErrorResponse always enables debug).
+func VerifC05WriteErrorResponse(w io.Writer, schema *arrow.Schema, err error, serverID, requestID string, debug bool) error {
+	if schema == nil {
+		schema = arrow.NewSchema(nil, nil)
+	}
+	return writeErrorResponse(w, schema, err, serverID, requestID, debug)
+}
+
+// VerifC05NewExternalCapError builds the max_externalized_response_bytes refusal.
+func VerifC05NewExternalCapError(method string, projected, capBytes int64) error {
+	return newExternalCapError(method, projected, capBytes)
+}
+
+// VerifC05EnforceResponseBudgets exposes the post-flush cap check.
+func VerifC05EnforceResponseBudgets(method string, wireBytes, externalBytes, wireCap, externalCap int64) error {
+	return enforceResponseBudgets(method, wireBytes, externalBytes, wireCap, externalCap)
+}
